@@ -143,6 +143,11 @@ func verifC02(ssa bool) {
 		if !gensel {
 			env.SetLabel(d, "app", "x")
 		}
+		if rt.Bool("new-child-carries-a-plain-owner-reference-to-the-parent") {
+			// a hand-written garbage-collection reference (controller flag absent)
+			rt.Cover("desired-with-plain-owner-reference")
+			env.AddOwnerRef(d, env.OwnerRefMap("ex.com/v1", "Thing", "p", puid, false))
+		}
 		desired = append(desired, d)
 	}
 
